@@ -84,7 +84,7 @@ func sceneNewBatch(o ReqOpts) {
 		chk("C09 C10", vf.All(post.BatchCounter == bc+1, post.BatchState == types.BATCHRUNNING, post.State == types.RUNNING), "batch-started")
 		chk("C12", vf.All(int(post.BatchRequestCount) == cnt, post.BatchResponseCount == 0, post.BatchResponseThreshold == th), "batch-counts")
 		chk("C11", k.HasRequestBatchExpiration(ctx, id), "expiry-queued")
-		chk("C11 C08", expiryAt(k, ctx, id, s.H+timeout), "expiry-at-issue-plus-timeout")
+		chk("C11 C08 C10", expiryAt(k, ctx, id, s.H+timeout), "expiry-at-issue-plus-timeout")
 		chk("C12", vf.All(len(s.Log.Resp) == 0, len(s.Log.State) == 0), "no-callback-at-issue")
 	} else {
 		chk("C06 C16", vf.All(nreq == 0, nact == 0), "no-requests")
@@ -106,7 +106,7 @@ func sceneNewBatch(o ReqOpts) {
 			vf.Reach("skipped")
 			chk("C06 C09 C10", vf.All(post.State == types.RUNNING, post.BatchCounter == bc+1, post.BatchState == types.BATCHRUNNING), "skipped-counts-as-batch")
 			chk("C12", vf.All(post.BatchRequestCount == 0, post.BatchResponseCount == 0), "skipped-counts-zero")
-			chk("C11", expiryAt(k, ctx, id, s.H+timeout), "skip-expiry-queued")
+			chk("C11 C10 C08", expiryAt(k, ctx, id, s.H+timeout), "skip-expiry-queued")
 		}
 	}
 	// C10: the batch counter never passes the largest total ever in force
@@ -183,8 +183,8 @@ func sceneExpiry(o ReqOpts) {
 	nreq, nresp, nact := countRecords(k, ctx, id, bc)
 	chk("C16 C08", vf.All(nreq == 0, nresp == 0, nact == 0), "batch-records-removed")
 	for j := 0; j < s.M; j++ {
-		chk("C08 C16", !k.IsRequestActive(ctx, s.ReqIDs[j]), "no-longer-pending")
-		chk("C16", !vf.Store(ctx).Has(types.GetActiveRequestKey(Svc, s.Provs[j], s.ExpH, s.ReqIDs[j])), "binding-marker-removed")
+		chk("C08 C16 C11", !k.IsRequestActive(ctx, s.ReqIDs[j]), "no-longer-pending")
+		chk("C16 C11 C08", !vf.Store(ctx).Has(types.GetActiveRequestKey(Svc, s.Provs[j], s.ExpH, s.ReqIDs[j])), "binding-marker-removed")
 	}
 	chk("C11", vf.All(!k.HasRequestBatchExpiration(ctx, id), !vf.Store(ctx).Has(types.GetExpiredRequestBatchKey(id, s.H))), "expiry-entry-consumed")
 
